@@ -258,7 +258,7 @@ const LOCATIONS_EXEC: &[&str] = &["QUERY", "MUTATION", "SUBSCRIPTION", "FIELD", 
 /// directive applications that are legal at `location`
 pub fn gen_applications(rng: &mut Rng, ix: &SchemaIx, location: &str, coercing: bool, p_num: u32, p_den: u32) -> Vec<Dir> {
     let mut out = vec![];
-    let cands: Vec<&DirectiveDef> = ix.directives.values().filter(|d| d.locations.iter().any(|l| l.s == location) && d.name.s != "specifiedBy" && d.name.s != "skip" && d.name.s != "include").collect();
+    let cands: Vec<&DirectiveDef> = ix.directives.values().filter(|d| d.locations.iter().any(|l| l.s == location) && d.name.s != "specifiedBy" && d.name.s != "nitrogql_ts_type" && d.name.s != "skip" && d.name.s != "include").collect();
     for d in cands {
         if !rng.chance(p_num, p_den) {
             continue;
@@ -577,4 +577,62 @@ pub fn gen_valid_schema(rng: &mut Rng, o: &SchemaOpts) -> (TsDoc, usize) {
             return (t, rejected);
         }
     }
+}
+
+
+/// the four-way expansion [resolverOutput, resolverInput, operationOutput, operationInput] of a scalar config value
+/// ("a", "send||receive", "ro||ri||oo||oi")
+pub fn four_way(v: &str) -> [String; 4] {
+    let parts: Vec<&str> = v.split("||").collect();
+    match parts.len() {
+        2 => [parts[0].to_string(), parts[1].to_string(), parts[1].to_string(), parts[0].to_string()],
+        4 => [parts[0].to_string(), parts[1].to_string(), parts[2].to_string(), parts[3].to_string()],
+        _ => [v.to_string(), v.to_string(), v.to_string(), v.to_string()],
+    }
+}
+
+/// types scalar `name` through the schema directive `@nitrogql_ts_type` (arguments in random order), on the definition or
+/// through an `extend scalar` (always the latter for built-in scalars, which is what the graphql-scalars plugin emits)
+pub fn add_ts_type_directive(doc: &mut TsDoc, name: &str, four: &[String; 4], rng: &mut Rng) {
+    let mut args = vec![("resolverOutput", Val::str(&four[0])), ("resolverInput", Val::str(&four[1])), ("operationOutput", Val::str(&four[2])), ("operationInput", Val::str(&four[3]))];
+    rng.shuffle(&mut args);
+    let dir = Dir::new("nitrogql_ts_type", args);
+    let builtin = crate::schema_ix::BUILTIN_SCALARS.contains(&name);
+    if !builtin && rng.coin() {
+        for d in doc.defs.iter_mut() {
+            if let TsDef::Type(t) = d {
+                if !t.ext && t.kind == TKind::Scalar && t.name.s == name {
+                    let at = rng.below(t.dirs.len() + 1);
+                    t.dirs.insert(at, dir);
+                    return;
+                }
+            }
+        }
+    }
+    let mut e = TypeDef::new(TKind::Scalar, name);
+    e.ext = true;
+    e.dirs.push(dir);
+    let at = rng.below(doc.defs.len() + 1);
+    doc.defs.insert(at, TsDef::Type(e));
+}
+
+/// moves some entries of a scalar configuration into `@nitrogql_ts_type` applications; an entry that stays in the
+/// configuration *and* gets a (different) directive exercises "the configuration wins"
+pub fn scalars_via_directive(doc: &mut TsDoc, scalars: &mut Vec<(String, String)>, pool: &[&str], rng: &mut Rng) {
+    let mut keep = vec![];
+    for (name, v) in scalars.drain(..) {
+        if !rng.chance(2, 5) {
+            keep.push((name, v));
+            continue;
+        }
+        if rng.chance(1, 4) {
+            // directive says something else; configuration wins
+            let other = [rng.s(pool).to_string(), rng.s(pool).to_string(), rng.s(pool).to_string(), rng.s(pool).to_string()];
+            add_ts_type_directive(doc, &name, &other, rng);
+            keep.push((name, v));
+        } else {
+            add_ts_type_directive(doc, &name, &four_way(&v), rng);
+        }
+    }
+    *scalars = keep;
 }
